@@ -74,6 +74,8 @@ Record proc := {
   p_selecting : bool;
   p_value : option value;                    (* pushed by complete_select *)
   p_error : option perr;                     (* result = Some(Err _), frames cleared *)
+  p_unreported : list pid;                   (* unreported_awaits (process.rs:143, since 8388832): awaited
+                                                targets whose state has not been reported yet *)
 }.
 
 (* ---- HashMap<ProcessId, Option<Value>> ---- *)
@@ -239,19 +241,32 @@ Variable written : list source.
 
 Definition set_flags (st : proc) (q sel : bool) : proc :=
   {| p_mailbox := p_mailbox st; p_awaiting := p_awaiting st; p_sel := p_sel st;
-     p_queued := q; p_selecting := sel; p_value := p_value st; p_error := p_error st |}.
+     p_queued := q; p_selecting := sel; p_value := p_value st; p_error := p_error st;
+     p_unreported := p_unreported st |}.
 Definition set_sel (st : proc) (s : option sel_state) : proc :=
   {| p_mailbox := p_mailbox st; p_awaiting := p_awaiting st; p_sel := s;
-     p_queued := p_queued st; p_selecting := p_selecting st; p_value := p_value st; p_error := p_error st |}.
+     p_queued := p_queued st; p_selecting := p_selecting st; p_value := p_value st; p_error := p_error st;
+     p_unreported := p_unreported st |}.
 Definition set_error (st : proc) (e : perr) : proc :=
   {| p_mailbox := p_mailbox st; p_awaiting := p_awaiting st; p_sel := p_sel st;
-     p_queued := p_queued st; p_selecting := p_selecting st; p_value := p_value st; p_error := Some e |}.
+     p_queued := p_queued st; p_selecting := p_selecting st; p_value := p_value st; p_error := Some e;
+     p_unreported := p_unreported st |}.
 Definition set_awaiting (st : proc) (aw : list (pid * option value)) : proc :=
   {| p_mailbox := p_mailbox st; p_awaiting := aw; p_sel := p_sel st;
-     p_queued := p_queued st; p_selecting := p_selecting st; p_value := p_value st; p_error := p_error st |}.
+     p_queued := p_queued st; p_selecting := p_selecting st; p_value := p_value st; p_error := p_error st;
+     p_unreported := p_unreported st |}.
 Definition set_mailbox (st : proc) (mb : list msg) : proc :=
   {| p_mailbox := mb; p_awaiting := p_awaiting st; p_sel := p_sel st;
-     p_queued := p_queued st; p_selecting := p_selecting st; p_value := p_value st; p_error := p_error st |}.
+     p_queued := p_queued st; p_selecting := p_selecting st; p_value := p_value st; p_error := p_error st;
+     p_unreported := p_unreported st |}.
+Definition set_unreported (st : proc) (u : list pid) : proc :=
+  {| p_mailbox := p_mailbox st; p_awaiting := p_awaiting st; p_sel := p_sel st;
+     p_queued := p_queued st; p_selecting := p_selecting st; p_value := p_value st; p_error := p_error st;
+     p_unreported := u |}.
+(* notify_await_report, executor.rs:775: unreported_awaits.retain(|t| !targets.contains(t)) *)
+Definition report (ps : list pid) (st : proc) : proc :=
+  set_unreported st (filter (fun t => negb (existsb (Nat.eqb t) ps)) (p_unreported st)).
+
 
 (* check_expired_timeouts, executor.rs:2676 (for this process) *)
 Definition expired (s : sel_state) (now : Z) : bool :=
@@ -280,7 +295,10 @@ Definition initialize_select (now : Z) (st : proc) : proc :=
   match pids with
   | [] => st1
   | _ => (* awaiting.insert(target, None) for every target; mark_selecting; Action::Await *)
-      set_flags (set_awaiting st1 (fold_left (fun aw p => aw_insert p None aw) pids (p_awaiting st1)))
+      (* ...; unreported_awaits = pid_targets (since 8388832) *)
+      set_flags (set_unreported
+                   (set_awaiting st1 (fold_left (fun aw p => aw_insert p None aw) pids (p_awaiting st1)))
+                   pids)
                 false true
   end.
 
@@ -290,7 +308,7 @@ Definition complete_select (st : proc) (srcs : list source) (v : value) (mb : li
      p_awaiting := if fix45 then fold_left (fun aw p => aw_remove p aw) (pids_of srcs) (p_awaiting st)
                    else p_awaiting st;
      p_sel := None; p_queued := p_queued st; p_selecting := p_selecting st;
-     p_value := Some v; p_error := p_error st |}.
+     p_value := Some v; p_error := p_error st; p_unreported := p_unreported st |}.
 
 (* One execution of the Select instruction by the process (handle_select, executor.rs:2582-2608),
    inside Executor::step (executor.rs:1093): check_expired_timeouts, pop the queue, run, and the
@@ -318,6 +336,11 @@ Definition step (now : Z) (st0 : proc) : outcome proc :=
           match popped with
           | Some (VdErr e) => Val (set_flags (set_error st (PErr e)) false (p_selecting st))
           | _ =>
+            (* Phase 3 (since 8388832): until the await has reported every process source the
+               woken select parks again without evaluating anything: mark_selecting; Ok(None) *)
+            match p_unreported st with
+            | _ :: _ => Val (set_flags st false true)
+            | [] =>
             let rr := match popped with
                       | Some (Truthy n) => Some (Some n)
                       | Some VdNil => Some None
@@ -332,6 +355,7 @@ Definition step (now : Z) (st0 : proc) : outcome proc :=
             | SPark s' => Val (set_flags (set_sel st (Some s')) false true)
             | SError e s' => Val (set_flags (set_error (set_sel st (Some s')) (PErr e)) false (p_selecting st))
             | SPanic n => Panic n
+            end
             end
           end
       end
@@ -360,12 +384,16 @@ Inductive event :=
 | EActive                                (* mark_active, executor.rs:871 *)
 | ELocal (p : pid) (r : option value)    (* awaited process finishes on the same executor:
                                             Executor::step awaiters loop, executor.rs:1245-1280 *)
-| ETick (now : Z).                       (* an Executor::step that runs ANOTHER process: only its
+| ETick (now : Z)                        (* an Executor::step that runs ANOTHER process: only its
                                             check_expired_timeouts(now) concerns this one *)
+| EReport (ps : list pid).               (* notify_await_report, executor.rs:775 (Worker::
+                                            update_await_results reports every key of an answer) *)
 
+(* notify_result, executor.rs:784: a result for a key that is no longer awaited only wakes; otherwise
+   it reports the state of its process (notify_await_report), is stored, and wakes *)
 Definition notify_result (p : pid) (v : value) (st : proc) : proc :=
   wake (if fix45 && negb (aw_has p (p_awaiting st)) then st
-        else set_awaiting st (aw_insert p (Some v) (p_awaiting st))).
+        else set_awaiting (report [p] st) (aw_insert p (Some v) (p_awaiting st))).
 
 Definition apply_event (ev : event) (st : proc) : outcome proc :=
   match ev with
@@ -382,6 +410,7 @@ Definition apply_event (ev : event) (st : proc) : outcome proc :=
         end
       else Val st
   | ETick now => Val (check_expired now st)
+  | EReport ps => Val (report ps st)
   end.
 
 Fixpoint run (evs : list event) (st : proc) : outcome proc :=
@@ -414,4 +443,4 @@ End Machine.
 (* a process about to execute its select: runnable, nothing selected yet *)
 Definition initial (mb : list msg) (aw : list (pid * option value)) : proc :=
   {| p_mailbox := mb; p_awaiting := aw; p_sel := None; p_queued := true; p_selecting := false;
-     p_value := None; p_error := None |}.
+     p_value := None; p_error := None; p_unreported := [] |}.
